@@ -9,6 +9,7 @@ import (
 	"os"
 	"sort"
 	"sync"
+	"sync/atomic"
 	"time"
 
 	orbitdb "berty.tech/go-orbit-db"
@@ -64,6 +65,7 @@ type World struct {
 	PeersDelay func() time.Duration
 	tmp        string
 	fetches    int64
+	blocked    int64 // fetches currently waiting for a block that no reachable peer holds
 	closed     bool
 }
 
@@ -447,6 +449,9 @@ func (w *World) WireLen() int {
 	return len(w.wire)
 }
 
+// Blocked returns the number of block fetches currently waiting for a block no reachable peer holds.
+func (w *World) Blocked() int64 { return atomic.LoadInt64(&w.blocked) }
+
 // ---- idle detection ----
 
 // ReplicatorsIdle reports whether every open store's replicator is at rest.
@@ -470,6 +475,9 @@ type IdleOpts struct {
 	// IgnoreReplicators: do not consult the replicators' own bookkeeping
 	// (used where that bookkeeping itself is under test).
 	IgnoreReplicators bool
+	// BlockedOK: block fetches that wait for a block nobody holds are not work in progress; each of them
+	// may account for one unit of pending work (the replication request that waits for it).
+	BlockedOK bool
 	// Extra fingerprint that must stay unchanged during the window.
 	Fingerprint func() string
 }
@@ -490,7 +498,12 @@ func (w *World) WaitIdle(opts IdleOpts) bool {
 	lastFP := ""
 	sleep := 200 * time.Microsecond
 	for {
-		ok := w.H.Pending() == 0 && (!opts.PoolMustBeEmpty || w.InflightLen() == 0) && (opts.IgnoreReplicators || w.ReplicatorsIdle())
+		pend := w.H.Pending()
+		pendOK := pend == 0
+		if opts.BlockedOK {
+			pendOK = pend >= 0 && pend <= atomic.LoadInt64(&w.blocked)
+		}
+		ok := pendOK && (!opts.PoolMustBeEmpty || w.InflightLen() == 0) && (opts.IgnoreReplicators || w.ReplicatorsIdle())
 		gen := w.H.Generation()
 		fp := ""
 		if ok && opts.Fingerprint != nil {
